@@ -9,7 +9,8 @@
    what the property text asks for (Spec.v). *)
 From Coq Require Import List NArith Arith Bool.
 From Verif.Common Require Import Prefix.
-From Verif.C43 Require Import Model Spec Proofs Final FinalProofs Blackhole MgrProofs Order.
+From Coq Require Import Permutation.
+From Verif.C43 Require Import Model Spec Proofs Final FinalProofs Blackhole MgrProofs FlushPerm Order.
 Import ListNotations.
 Open Scope N_scope.
 
@@ -65,6 +66,18 @@ Theorem c43_mgr_state_function_of_route_set : forall T msgs,
   mgr_agrees T (fold_left (mgr_on_update T) msgs (mkM [] [])) (fold_left acc_msg msgs []).
 Proof. exact mgr_state_function_of_route_set. Qed.
 Print Assumptions c43_mgr_state_function_of_route_set.
+
+(* flush() ranges over the Go set dirtyCIDRs in an unspecified order: for EVERY order of the (duplicate-free)
+   dirty set the trie and the accumulated route set come out the same (each dirty CIDR's outcome is determined
+   by the state before the flush). *)
+Theorem c43_flush_order_independent : forall s l1 l2, NoDup l1 -> Permutation l1 l2 ->
+  let s1 := fold_left flush_one l1 s in
+  let s2 := fold_left flush_one l2 s in
+  s_nodes s1 = s_nodes s2
+  /\ (forall k, tget (s_trie s1) k = tget (s_trie s2) k)
+  /\ (forall k, aget prefix_eqb (s_out s1) k = aget prefix_eqb (s_out s2) k).
+Proof. exact flush_order_independent. Qed.
+Print Assumptions c43_flush_order_independent.
 
 (* routeManager.updateRoutes on any kept RouteUpdate: parent-device (direct) target exactly when the manager
    is the no-encap one or the update is flagged SameSubnet, and the owner's address is known. *)
